@@ -72,6 +72,30 @@ class ExprMixin(object):
             e = env.parent
         env = st.heap[env_ref.id]
         mod = env.module
+        # a local of the running function that no path so far has bound: UnboundLocalError
+        fn_ = env.func
+        if fn_ is not None and getattr(self, "split_unjoinable", False):
+            locs = self.__dict__.setdefault("_local_names", {})
+            key_ = id(fn_.node)
+            if key_ not in locs:
+                names_ = set()
+                stack_ = list(fn_.node.body)
+                while stack_:
+                    n_ = stack_.pop()
+                    if isinstance(n_, (ast.FunctionDef, ast.Lambda, ast.ClassDef)):
+                        if isinstance(n_, (ast.FunctionDef, ast.ClassDef)):
+                            names_.add(n_.name)
+                        continue
+                    if isinstance(n_, ast.Name) and isinstance(n_.ctx, ast.Store):
+                        names_.add(n_.id)
+                    if isinstance(n_, (ast.ListComp, ast.SetComp, ast.DictComp, ast.GeneratorExp)):
+                        continue
+                    stack_.extend(ast.iter_child_nodes(n_))
+                globs_ = set(x for g_ in ast.walk(fn_.node) if isinstance(g_, (ast.Global, ast.Nonlocal)) for x in g_.names)
+                locs[key_] = names_ - globs_
+            if name in locs[key_]:
+                self.hazard(st, "UnboundLocalError", node, module, TRUE, "local variable %s is read on a path that never assigned it" % name)
+                raise Dead()
         ov = getattr(self, "global_overrides", None)
         if ov and (mod.name, name) in ov:
             return ov[(mod.name, name)]
@@ -652,6 +676,17 @@ class ExprMixin(object):
         # Later operands were evaluated under the assumption that the earlier ones did not
         # short-circuit, so their tables are partial: combine with ITE (row-wise, tolerant).
         allbool = all(is_boolish(v) for v in vals)
+        # where only the truth of the result is used (condition of if / while / conditional
+        # expression, operand of not / and / or) the operands' own values need not be joined
+        par = module.parent(node) if module is not None else None
+        cond_ctx = (
+            (isinstance(par, (ast.If, ast.While, ast.IfExp, ast.Assert)) and par.test is node)
+            or (isinstance(par, ast.UnaryOp) and isinstance(par.op, ast.Not))
+            or isinstance(par, ast.BoolOp)
+            or (isinstance(par, ast.comprehension) and node in par.ifs)
+        )
+        if cond_ctx and not allbool:
+            allbool = True
         result = conds[-1] if allbool else vals[-1]
         for v, c in reversed(list(zip(vals[:-1], conds[:-1]))):
             if is_and:
